@@ -1,6 +1,6 @@
 (** Non-vacuity for C11_frag: programs of the fragment, by computation. *)
 From Coq Require Import NArith List.
-From FF Require Import Aml.Grammar Aml.WfProgram Aml.ParserFragF0Final Aml.ParserFragF1Final Aml.ParserFragF3Final Aml.ParserFragF4Final Aml.ParserFragF5Final Aml.ParserFragF6Final Aml.ParserFragT2Final Props.C11_frag.
+From FF Require Import Aml.Grammar Aml.WfProgram Aml.ParserFragF0Final Aml.ParserFragF1Final Aml.ParserFragF3Final Aml.ParserFragF4Final Aml.ParserFragF5Final Aml.ParserFragF6Final Aml.ParserFragF7Final Aml.ParserFragT2Final Props.C11_frag.
 Import ListNotations.
 Local Open Scope N_scope.
 
@@ -246,4 +246,36 @@ Example C11_fragment_F6_excludes :
   in_fragment_F6 [[AName (f0_nm 0x50 0x4b 0x47 0x30) (APackage 1 1 [AConst 1 0])]] = false /\
   in_fragment_F6 [[AName (mkName true 0 false [seg4 0x53 0x54 0x52 0x30]) (AStr [0x41])]] = false /\
   wf_program [[AName (f0_nm 0x53 0x54 0x52 0x30) (AStr [0x80])]] = false.
+Proof. vm_compute. repeat split. Qed.
+
+(** ---- F7: Name declarations whose value is a package of integer constants and strings (empty package, fewer elements
+    than announced, every constant form, a string element, inside Scope / Device / Method) ---- *)
+Definition f7_program : list (list ast) :=
+  [[AName (f0_nm 0x5f 0x50 0x52 0x57) (APackage 1 2 [AConst OP_BYTE 0x18; AConst 0x00 0]);
+    AName (f0_nm 0x45 0x4d 0x50 0x54) (APackage 1 0 []);
+    AName (f0_nm 0x50 0x4b 0x47 0x34) (APackage 1 4 [AConst OP_WORD 0x1234]);
+    AScope 2 (mkName true 0 false [seg4 0x5f 0x53 0x42 0x5f])
+      [ADevice 2 (f0_nm 0x44 0x45 0x56 0x30)
+         [AName (f0_nm 0x5f 0x48 0x49 0x44) (AStr [0x41; 0x43; 0x50; 0x49; 0x30; 0x30; 0x30; 0x33]);
+          AName (f0_nm 0x5f 0x53 0x35 0x5f) (APackage 1 5 [AConst OP_BYTE 5; AStr [0x41; 0x42]; AConst 0xff 0; AConst OP_QWORD 0x1122334455667788; AConst OP_DWORD 7]);
+          AMethod 1 (f0_nm 0x4d 0x54 0x48 0x30) 0 [AName (f0_nm 0x53 0x54 0x52 0x30) (APackage 1 1 [AStr []])]]];
+    AName (f0_nm 0x5a 0x5a 0x5a 0x5a) (AConst 0x01 0)]].
+
+Example C11_parse_encode_partial_F7_nonvacuous :
+  wf_program f7_program = true /\ in_fragment_F7 f7_program = true /\ in_fragment_F6 f7_program = false /\
+  in_fragment_F7 f6_program = true /\ in_fragment_F7 f5_program = true /\ in_fragment_F7 f4_program = true /\ in_fragment_F7 f0_program = true.
+Proof. vm_compute. repeat split. Qed.
+
+Example C11_parse_encode_partial_F7_instance : parse_encode_statement f7_program.
+Proof. apply C11_parse_encode_partial_F7; vm_compute; reflexivity. Qed.
+
+Example C11_parse_encode_partial_F7_run : parse_program f7_program = (0, ns f7_program) /\ length (ns f7_program) = 9%nat.
+Proof. vm_compute. split; reflexivity. Qed.
+
+(** outside F7: a nested package, a name as package element, a Buffer value; a package whose element count does not fit a byte is not well formed *)
+Example C11_fragment_F7_excludes :
+  in_fragment_F7 [[AName (f0_nm 0x50 0x4b 0x47 0x30) (APackage 1 1 [APackage 1 0 []])]] = false /\
+  in_fragment_F7 [[AName (f0_nm 0x50 0x4b 0x47 0x30) (APackage 1 1 [ARef (f0_nm 0x41 0x42 0x43 0x44)])]] = false /\
+  in_fragment_F7 [[AName (f0_nm 0x42 0x55 0x46 0x30) (ABuffer 1 (AConst OP_BYTE 2) [1; 2])]] = false /\
+  wf_program [[AName (f0_nm 0x50 0x4b 0x47 0x30) (APackage 1 256 [])]] = false.
 Proof. vm_compute. repeat split. Qed.
